@@ -698,11 +698,12 @@ func c03ForeignRun(tier string, seed int64, idx int, c c03Case, res *core.Result
 
 func init() {
 	core.Register(&core.Prop{
-		ID:    "C03",
-		Level: "exploration",
-		Rule:  "cases: (matrix) 24 RPCs per case cycling 4 RPC kinds x 11 error kinds (status x3, wrapped status, plain, context canceled/deadline, error whose GRPCStatus says OK, nil, io.EOF, wrapped io.EOF) x all 16 non-OK codes x message class {plain, empty, Unicode, 4 KiB} x 0..3 Any details x position {before any message, between, after the last}, unary also with a body alongside the error; (race) handler fails while the caller still sends, the trailer held in the server writer by a rendezvous hook while 1..4 late bodies arrive; (loss-before-trailer) the handler sends a message and fails but the connection is lost - with io.EOF, a wrapped io.EOF, a custom error or context.Canceled - before the trailer arrives: the caller must not observe success; (loss-after-trailer) the handler sends one message and fails; the caller starts receiving only after the complete response was read and the transport then failed: it must still see the messages and the status; (foreign) 13 reply shapes from a scripted peer (explicit OK + body, status without metadata, resets - typed RST_STREAM, untyped, lower-case - with/without trailer / after a body). Every third matrix RPC also sets binary response metadata through an MD literal with a mixed-case -bin key. Half of the matrix cases run behind pass-through server interceptors (plain / chained pairs). Every case is non-trivial; distinct = distinct descriptors.",
-		Plan:  func(tier string, seed int64) int { return tierN(tier, 144, 4800) },
-		Run:   c03Run,
+		ID:             "C03",
+		Level:          "exploration",
+		Rule:           "cases: (matrix) 24 RPCs per case cycling 4 RPC kinds x 11 error kinds (status x3, wrapped status, plain, context canceled/deadline, error whose GRPCStatus says OK, nil, io.EOF, wrapped io.EOF) x all 16 non-OK codes x message class {plain, empty, Unicode, 4 KiB} x 0..3 Any details x position {before any message, between, after the last}, unary also with a body alongside the error; (race) handler fails while the caller still sends, the trailer held in the server writer by a rendezvous hook while 1..4 late bodies arrive; (loss-before-trailer) the handler sends a message and fails but the connection is lost - with io.EOF, a wrapped io.EOF, a custom error or context.Canceled - before the trailer arrives: the caller must not observe success; (loss-after-trailer) the handler sends one message and fails; the caller starts receiving only after the complete response was read and the transport then failed: it must still see the messages and the status; (foreign) 13 reply shapes from a scripted peer (explicit OK + body, status without metadata, resets - typed RST_STREAM, untyped, lower-case - with/without trailer / after a body). Every third matrix RPC also sets binary response metadata through an MD literal with a mixed-case -bin key. Half of the matrix cases run behind pass-through server interceptors (plain / chained pairs). Every case is non-trivial; distinct = distinct descriptors.",
+		Plan:           func(tier string, seed int64) int { return tierN(tier, 144, 4800) },
+		ThoroughRounds: 4,
+		Run:            c03Run,
 		RequiredStats: func(string) []string {
 			return []string{"trailer_held_in_writer", "foreign_cases", "rpcs", "loss_after_trailer_cases", "loss_before_trailer_cases", "cases_with_server_interceptors", "rpcs_with_binary_response_metadata"}
 		},
